@@ -5,6 +5,7 @@ CONSTANTS
     L = 2
     Design = "temp"
     Policy = "validate"
+    RenameAt = "closed"
     MaxCrash = 2
     Fifo = TRUE
     EmitOn = FALSE
